@@ -11,6 +11,7 @@
 #include "pbt.hpp"
 #include <functional>
 #include <memory>
+#include <map>
 #include <string>
 #include <vector>
 #include <complex>
@@ -33,6 +34,7 @@ struct World {
     int err = 0;          // errno right after the last API call
     long rc = 0;          // integer return value of the last API call (if any)
     bool rc_bad = false;  // return value outside the documented set
+    bool rc_value = false;// the call returned a value (handle, index, count): part of the observable result
     vnadata_t *vd[4] = {nullptr, nullptr, nullptr, nullptr};
     vnaproperty_t *prop[3] = {nullptr, nullptr, nullptr};
     vnacal_t *vc[2] = {nullptr, nullptr};
@@ -169,6 +171,11 @@ struct Script {
     std::vector<long> K;
     std::string ref_digest;
     long total = 0;
+    bool invalid = false;      // generated variant whose fault-free run does not succeed (filtered, counted)
+    // generated script family: variant v is built on first use and cached
+    int nvariants = 0;
+    void (*generate)(Script &, int) = nullptr;
+    std::map<int, std::unique_ptr<Script>> variants;
     void add(const char *fn, bool reports, std::function<bool(World &)> call, std::function<void(World &)> obs = nullptr, bool documented = true) {
         steps.push_back(Step{fn, reports, documented, std::move(call), std::move(obs)});
     }
@@ -178,7 +185,7 @@ struct Script {
 // int-valued function documented "0 on success, -1 on error"
 #define RET_INT0(w, e) do { errno = 0; long rc__ = (e); (w).err = errno; (w).rc = rc__; (w).rc_bad = !(rc__ == 0 || rc__ == -1); return rc__ == -1; } while (0)
 // int-valued function returning a non-negative value (index, count, type char) or -1
-#define RET_INTN(w, e, dst) do { errno = 0; long rc__ = (e); (w).err = errno; (w).rc = rc__; (w).rc_bad = rc__ < -1; if (rc__ == -1) return true; dst = (int)rc__; return false; } while (0)
+#define RET_INTN(w, e, dst) do { errno = 0; long rc__ = (e); (w).err = errno; (w).rc = rc__; (w).rc_bad = rc__ < -1; if (rc__ == -1) return true; dst = (int)rc__; (w).rc_value = true; return false; } while (0)
 // pointer-valued function documented "NULL on error"
 #define RET_PTR(w, e, dst) do { errno = 0; auto p__ = (e); (w).err = errno; (w).rc_bad = false; if (p__ == nullptr) return true; dst = p__; return false; } while (0)
 
@@ -980,6 +987,85 @@ static void script_vnacal_t16(Script &S) {
     VC_FREE(0);    // also frees both vnacal_new_t structures
 }
 
+// --- G: generated calibration histories (thorough tier): every error-term type x dimensions
+//     {1x1, 2x2, 2x1 / 1x2} x frequencies {1,2,3} x measurement form {m, a/b}:
+//     create, new_alloc, frequencies, a standard set that determines every type, solve,
+//     add_calibration, save, load, apply, free
+static const int GEN_TYPES[8] = {VNACAL_T8, VNACAL_U8, VNACAL_TE10, VNACAL_UE10, VNACAL_T16, VNACAL_U16, VNACAL_UE14, VNACAL_E12};
+static const int GEN_NVARIANTS = 8 * 3 * 3 * 2;
+static void script_gen_cal(Script &S, int v) {
+    const int type = GEN_TYPES[v % 8]; v /= 8;
+    const int dim = v % 3; v /= 3;         // 0: 1x1, 1: 2x2, 2: rectangular (2x1 for U/E types, 1x2 for T types)
+    const int F = 1 + v % 3; v /= 3;
+    const bool ab = v % 2;
+    const bool is_t = type == VNACAL_T8 || type == VNACAL_TE10 || type == VNACAL_T16;
+    const bool colsys = type == VNACAL_UE14 || type == VNACAL_E12;
+    const int rows = dim == 0 ? 1 : dim == 1 ? 2 : is_t ? 1 : 2;
+    const int cols = dim == 0 ? 1 : dim == 1 ? 2 : is_t ? 2 : 1;
+    char nm[96]; snprintf(nm, sizeof nm, "gen_cal_%s_%dx%d_F%d_%s", vnacal_type_to_name((vnacal_type_t)type), rows, cols, F, ab ? "ab" : "m");
+    S.name = nm;
+    Vna2 vna; vna.with_leak = type != VNACAL_T8 && type != VNACAL_U8;
+    dvec freq; for (int f = 0; f < F; f++) freq.push_back(1e9 * (f + 1));
+    struct Std { std::vector<int> s; MeasP m, a, b; };
+    auto gam = [](int h) { return h == VNACAL_SHORT ? cd(-1) : h == VNACAL_OPEN ? cd(1) : cd(0); };
+    std::vector<Std> stds;
+    if (dim == 0) {
+        for (int h : {VNACAL_SHORT, VNACAL_OPEN, VNACAL_MATCH}) { Std st; st.s = {h}; st.m = measure_m(vna, F, S_const(gam(h), 0, 0, 0), 1, 1); stds.push_back(st); }
+    } else {
+        const int defs[6][4] = {
+            {VNACAL_ZERO, VNACAL_ONE, VNACAL_ONE, VNACAL_ZERO}, {VNACAL_SHORT, VNACAL_ZERO, VNACAL_ZERO, VNACAL_OPEN}, {VNACAL_OPEN, VNACAL_ZERO, VNACAL_ZERO, VNACAL_SHORT},
+            {VNACAL_MATCH, VNACAL_ZERO, VNACAL_ZERO, VNACAL_MATCH}, {VNACAL_SHORT, VNACAL_ZERO, VNACAL_ZERO, VNACAL_MATCH}, {VNACAL_MATCH, VNACAL_ZERO, VNACAL_ZERO, VNACAL_OPEN}};
+        for (auto &d : defs) {
+            Std st; st.s.assign(d, d + 4);
+            st.m = measure_m(vna, F, S_const(gam(d[0]), d[1] == VNACAL_ONE ? cd(1) : cd(0), d[2] == VNACAL_ONE ? cd(1) : cd(0), gam(d[3])), rows, cols);
+            stds.push_back(st);
+        }
+    }
+    for (auto &st : stds) if (ab) make_ab(*st.m, colsys, st.a, st.b);
+    // DUT measurement for apply: square, max(rows, cols) ports; the missing row/column of a
+    // rectangular calibration is measured with the DUT reversed
+    const int P = std::max(rows, cols);
+    MeasP dut = std::make_shared<Meas>(P, P, F);
+    {
+        MeasP fwd = measure_m(vna, F, S_dut(), 2, 2), rev = measure_m(vna, F, S_const(DUT_S[1][1], DUT_S[1][0], DUT_S[0][1], DUT_S[0][0]), 2, 2);
+        for (int f = 0; f < F; f++) {
+            if (P == 1) { cd s[2][2] = {{cd(0.3, -0.4), 0}, {0, 0}}, m[2][2]; vna.measure(s, f, m); dut->at(0, 0, f) = cx(m[0][0]); continue; }
+            for (int r = 0; r < 2; r++) for (int cc = 0; cc < 2; cc++) dut->at(r, cc, f) = fwd->at(r, cc, f);
+            if (rows == 2 && cols == 1) { dut->at(1, 1, f) = rev->at(0, 0, f); dut->at(0, 1, f) = rev->at(1, 0, f); }
+            if (rows == 1 && cols == 2) { dut->at(1, 1, f) = rev->at(0, 0, f); dut->at(1, 0, f) = rev->at(0, 1, f); }
+        }
+    }
+    MeasP dut_a, dut_b;
+    if (ab) make_ab(*dut, colsys, dut_a, dut_b);
+    VC_CREATE(0);
+    S.add("vnacal_new_alloc", true, [=](World &w) { RET_PTR(w, vnacal_new_alloc(w.vc[0], (vnacal_type_t)type, rows, cols, F), w.vn[0]); });
+    S.add("vnacal_new_set_frequency_vector", true, [=](World &w) { RET_INT0(w, vnacal_new_set_frequency_vector(w.vn[0], freq.data())); });
+    for (auto &st : stds) {
+        Std sd = st;
+        const int sdim = dim == 0 ? 1 : 2;
+        const int arows = colsys ? 1 : cols;
+        if (ab) S.add("vnacal_new_add_mapped_matrix", true, [=](World &w) { RET_INT0(w, vnacal_new_add_mapped_matrix(w.vn[0], sd.a->ptr(), arows, cols, sd.b->ptr(), rows, cols, sd.s.data(), sdim, sdim, nullptr)); });
+        else S.add("vnacal_new_add_mapped_matrix_m", true, [=](World &w) { RET_INT0(w, vnacal_new_add_mapped_matrix_m(w.vn[0], sd.m->ptr(), rows, cols, sd.s.data(), sdim, sdim, nullptr)); });
+    }
+    VN_SOLVE(0);
+    VC_ADDCAL(0, 0, "generated");
+    VC_SAVE(0);
+    VN_FREE(0);
+    VC_FREE(0);
+    VC_LOAD(1);
+    S.add("vnadata_alloc", true, [](World &w) { RET_PTR(w, vnadata_alloc(errlog_fn, &w.log), w.vd[0]); });
+    const int arows_dut = colsys ? 1 : P;
+    if (ab) S.add("vnacal_apply", true, [=](World &w) { RET_INT0(w, vnacal_apply(w.vc[1], 0, freq.data(), F, dut_a->ptr(), arows_dut, P, dut_b->ptr(), P, P, w.vd[0])); }, OBS_VD(0));
+    else S.add("vnacal_apply_m", true, [=](World &w) { RET_INT0(w, vnacal_apply_m(w.vc[1], 0, freq.data(), F, dut->ptr(), P, P, w.vd[0])); }, OBS_VD(0));
+    FREE_VD(0);
+    VC_FREE(1);
+}
+static void script_gen_cal_family(Script &S) {
+    S.name = "gen_cal";
+    S.nvariants = GEN_NVARIANTS;
+    S.generate = script_gen_cal;
+}
+
 //@@MORE_SCRIPTS@@
 
 static void build_scripts() {
@@ -991,6 +1077,7 @@ static void build_scripts() {
         script_vnacal_parameters,
         script_vnacal_solt_e12, script_vnacal_t8_ab, script_vnacal_trl,
         script_vnacal_auto_ue14, script_vnacal_weighted, script_vnacal_correlated, script_vnacal_multi, script_vnacal_t16,
+        script_gen_cal_family,
         //@@MORE_BUILDERS@@
     };
     for (builder b : all) { g_scripts.emplace_back(); b(g_scripts.back()); }
@@ -1033,7 +1120,11 @@ static void run_script(Ctx &c, Script &S, int fault_step, long k, std::vector<lo
             fi->site = base_name(verif_fi_fired_file()) + ":" + std::to_string(verif_fi_fired_line());
             fi->func = verif_fi_fired_func();
             fi->failed = failed;
-            for (auto &r : w.log.recs) if (r.category == VNAERR_SYSTEM) fi->sysmsgs.push_back(r.msg);
+            for (auto &r : w.log.recs) if (r.category == VNAERR_SYSTEM) {
+                std::string m = r.msg;      // temp file names contain the pid: keep the labels stable
+                for (int t = 0; t < 4; t++) for (size_t at; (at = m.find(w.tmp[t])) != std::string::npos;) m.replace(at, w.tmp[t].size(), "<tmpfile>");
+                fi->sysmsgs.push_back(m);
+            }
             c.note("  fault delivered at %s (%s); call %s; errno=%d; callbacks: %s", fi->site.c_str(), fi->func.c_str(), failed ? "FAILED" : "succeeded", err, w.log.text().c_str());
             PBT_CHECK(c, fired, "C12.harness_fault_not_delivered", "script %s step %zu (%s): allocation %ld of %ld was never requested", S.name.c_str(), s, st.fn.c_str(), k, S.K[s]);
             PBT_CHECK(c, !w.rc_bad, "C12.undocumented_return_value", "script %s step %zu: %s returned %ld when allocation %ld (%s) failed: neither success nor the documented failure value", S.name.c_str(), s, st.fn.c_str(), w.rc, k, fi->site.c_str());
@@ -1057,6 +1148,9 @@ static void run_script(Ctx &c, Script &S, int fault_step, long k, std::vector<lo
                 PBT_CHECK(c, !failed2 && !w.rc_bad, "C12.retry_failed", "script %s step %zu: %s failed cleanly when allocation %ld (%s) failed, but the same call repeated without fault fails too: rc=%ld errno=%d (%s) callbacks: %s", S.name.c_str(), s, st.fn.c_str(), k, fi->site.c_str(), w.rc, w.err, strerror(w.err), w.log.text().c_str());
             }
         }
+        // values returned by the call (parameter handles, calibration indices, counts): the same history
+        // must return the same values whether or not an allocation failed and the call was repeated
+        if (w.rc_value) { w.obs("-- step %zu %s returned %ld", s, st.fn.c_str(), w.rc); w.rc_value = false; }
         if (st.obs) {
             verif_fi_pause();
             w.obs("-- after step %zu %s", s, st.fn.c_str());
@@ -1127,13 +1221,32 @@ __attribute__((noinline)) static void c12_case(Ctx &c) {
     static const char *only = getenv("C12_SCRIPT");
     size_t si = (size_t)c.draw(g_scripts.size());
     if (only) for (size_t i = 0; i < g_scripts.size(); i++) if (g_scripts[i].name == only) si = i;
-    Script &S = g_scripts[si];
-    c.label("script:" + S.name);
-    // second draw: reserved for script variants (arity 1); it also keeps the first three
-    // choices coarse so that the engine's enum sharding gets blocks of BLOCK fault points
-    (void)c.draw(1);
+    Script *Sp = &g_scripts[si];
+    // second draw: variant of a generated script family (arity 1 for the hand-written scripts and in
+    // the quick tier, where c.size <= 1); it also keeps the first three choices coarse so that the
+    // engine's enum sharding gets blocks of BLOCK fault points
+    int variant = (int)c.draw((uint64_t)(Sp->generate && c.size >= 2 ? Sp->nvariants : 1));
+    if (Sp->generate) {
+        c.label("script:" + Sp->name);
+        auto &slot = Sp->variants[variant];
+        if (!slot) { slot.reset(new Script); Sp->generate(*slot, variant); }
+        Sp = slot.get();
+    } else c.label("script:" + Sp->name);
+    Script &S = *Sp;
+    if (S.invalid) { c.label("filtered:generated-history-does-not-solve"); return; }
     if (!S.ref_valid) {
         std::vector<long> K; std::string d;
+        if (g_scripts[si].generate) {
+            // generated histories are not hand-checked: one whose fault-free run fails (e.g. a standard
+            // set that does not determine this type and shape) is skipped and counted
+            try { run_script(c, S, -1, 0, &K, d, nullptr); }
+            catch (const Fail &f) {
+                if (f.code != "C12.harness_script_invalid") throw;
+                S.invalid = true; c.note("generated history %s is not valid: %s", S.name.c_str(), f.msg.c_str());
+                c.label("filtered:generated-history-does-not-solve"); return;
+            }
+            K.clear(); d.clear();
+        }
         run_script(c, S, -1, 0, &K, d, nullptr);
         // the reference must itself be reproducible
         std::vector<long> K2; std::string d2;
